@@ -64,3 +64,66 @@ word_split = Contract(
           'bounded only (exhaustive fold sweep in bounded/C08.py)',
 )
 CONTRACTS.append(word_split)
+
+
+# ---- grammar actions of the MOF compiler: what the production's symbols say arrives in the constructed object.
+# The specification is GENERATED from the grammar rule in each action's docstring (read from the real source on every
+# run): symbol dataType -> type, propertyName -> name, array -> is_array True and array_size, no array symbol -> no
+# array_size, no defaultValue symbol -> NULL value.  (A-PLY: p[i] is the value of the i-th symbol of the rule.)
+import ast as _ast
+from pyvc.repo import Repo as _Repo
+import os as _os
+
+SYM = {'dataType': Str, 'propertyName': Str, 'array': Opt(Int), 'defaultValue': Opt(Str),
+       'qualifierList': ListOf(('ref', 'CIMQualifier')), "';'": Str}
+CLASS_SPECS = dict(globals().get('CLASS_SPECS', {}))
+CLASS_SPECS['CIMQualifier'] = {'name': Str}
+
+
+def _rule(fn):
+    doc = _ast.get_docstring(fn) or ''
+    head, _, rhs = doc.partition(':')
+    return head.strip(), rhs.split()
+
+
+def _property_action_contracts():
+    repo = _Repo(_os.environ.get('PYVC_REPO', '/repo'))
+    mod = repo.module('pywbem._mof_compiler')
+    out = []
+    for n in range(1, 9):
+        fname = f'p_propertyDeclaration_{n}'
+        fi = mod.get_func(fname)
+        if fi is None:
+            continue
+        head, syms = _rule(fi.node)
+        if any(s not in SYM for s in syms):
+            continue
+        pos = {s: i + 1 for i, s in enumerate(syms)}
+        req = [('name-is-the-propertyName-symbol', f"name == caller_p[{pos['propertyName']}]"),
+               ('type-is-the-dataType-symbol', f"type == caller_p[{pos['dataType']}]")]
+        if 'array' in pos:
+            req.append(('array-symbol-means-an-array-of-that-size', f"is_array is True and array_size == caller_p[{pos['array']}]"))
+        else:
+            req.append(('no-array-symbol-means-no-array-size', 'array_size is None and not is_array'))
+        if 'defaultValue' not in pos:
+            req.append(('no-defaultValue-symbol-means-NULL', 'value is None'))
+        if 'qualifierList' in pos:
+            req.append(('qualifierList-symbol-means-qualifiers-are-handed-over', 'qualifiers is not None'))
+        init_c = Contract('pywbem/_cim_obj.py::CIMProperty.__init__', trusted=True,
+                          raises={'TypeError': Raises(), 'ValueError': Raises()}, requires=req)
+        cimvalue_c = Contract('pywbem/_cim_obj.py::cimvalue', returns=Opt(Ref('value')), trusted=True,
+                              raises={'TypeError': Raises(), 'ValueError': Raises()},
+                              requires=[('the-default-is-typed-with-the-declared-type',
+                                         f"type == caller_p[{pos['dataType']}]" + (f" and value is caller_p[{pos['defaultValue']}]" if 'defaultValue' in pos else ''))])
+        out.append(Contract(
+            f'pywbem/_mof_compiler.py::{fname}',
+            params={'p': Obj('YaccProduction', __items__=TupleOf(NoneT, *[SYM[s] for s in syms]))},
+            callees={'CIMProperty.__init__': init_c, 'cimvalue': cimvalue_c},
+            opaque=['CIMProperty'],
+            ensures=[('production-value-is-the-property', 'isinstance(p[0], CIMProperty)')],
+            raises={'TypeError': Raises(), 'ValueError': Raises()},
+            notes=f'rule: {head} : {" ".join(syms)}'))
+    return out
+
+
+CONTRACTS.extend(_property_action_contracts())
